@@ -3,16 +3,18 @@
 import sys, subprocess, json, concurrent.futures, time, re
 igb = sys.argv[1]; to = int(sys.argv[2]) if len(sys.argv) > 2 else 30
 solver = sys.argv[3:] or ['--sat-solver', 'cadical']
-out = subprocess.run(['cbmc', igb, '--show-properties', '--json-ui', '--object-bits', '12'], stdout=subprocess.PIPE, text=True).stdout
+out = subprocess.run(['cbmc', igb, '--show-properties', '--json-ui', '--object-bits', '12', '--bounds-check', '--pointer-check', '--conversion-check', '--div-by-zero-check', '--unsigned-overflow-check', '--pointer-overflow-check', '--signed-overflow-check'], stdout=subprocess.PIPE, text=True).stdout
 props = []
 for it in json.loads(out):
     if 'properties' in it:
         props = it['properties']
-sel = [p for p in props if re.search(r'postcondition|loop_invariant|precondition|assertion|loop_decreases', p['name'])]
+import os
+pat = os.environ.get('DIAG_PAT', r'postcondition|loop_invariant|precondition|assertion|loop_decreases')
+sel = [p for p in props if re.search(pat, p['name'])]
 def run(p):
     t = time.time()
     try:
-        r = subprocess.run(['cbmc', igb, '--object-bits', '12', '--property', p['name']] + solver, stdout=subprocess.PIPE, stderr=subprocess.STDOUT, text=True, timeout=to)
+        r = subprocess.run(['cbmc', igb, '--object-bits', '12', '--bounds-check', '--pointer-check', '--conversion-check', '--div-by-zero-check', '--unsigned-overflow-check', '--pointer-overflow-check', '--signed-overflow-check', '--property', p['name']] + solver, stdout=subprocess.PIPE, stderr=subprocess.STDOUT, text=True, timeout=to)
         m = re.search(r'VERIFICATION (\w+)', r.stdout)
         v = m.group(1) if m else 'ERR'
     except subprocess.TimeoutExpired:
